@@ -1,6 +1,22 @@
 import STProofs.Sampling
 import STProofs.PPolyCache
-/-! # C20 — sampling helpers: time sequence contract in exact arithmetic
+import STProofs.PPolyRoutes
+import STProofs.ArcLength
+/-!
+# C20 — sampling, arc length and batch helpers
 
-Not proved: the arc-length error bound `|L − arc length| ≤ dt·∫‖a‖` (`length_error_bound`), and the behaviour under
-rounding (explored against the IEEE-double instance of the model). -/
+* time sequence contract in exact arithmetic: `timeSequence_shape`, `_head`, `_le_end`, `_last`, `_strictMono`,
+  `appended_end_iff`, `regular_step`;
+* batch evaluation over it equals pointwise evaluation: `evaluateBatch_eq` (every cache state);
+* the reported length **is** the left-endpoint Riemann sum of speed over that sequence: `trajLength_eq_riemann`;
+* **error bound**: `riemann_error_bound` — for any curve whose velocity has a continuous derivative `a` (any complete normed
+  space) and any non-decreasing sample sequence with steps ≤ δ: `|Σ ‖v(t_i)‖ Δ_i − ∫ ‖v‖| ≤ δ · ∫ ‖a‖`; hence convergence as
+  the step shrinks.
+
+Not covered by theorems: behaviour under rounding (explored against the IEEE-double instance of the model).
+-/
+open ST
+
+/-- non-vacuity of the bound's hypotheses: uniform motion on a line sampled with step 1/2 -/
+example : Steps (1/2 : ℝ) [0, 1/2, 1, 3/2] := by
+  simp only [Steps]; norm_num
